@@ -19,8 +19,9 @@ import (
 )
 
 type termFlagKey struct {
-	fn  *ssa.Function
-	idx int
+	fn   *ssa.Function
+	idx  int
+	cont bool // the inverted report (`more`): see loopsx_more.go
 }
 
 var termFlagMemo = map[*World]map[termFlagKey]int{} // 1 in progress / no, 2 yes
@@ -85,10 +86,18 @@ func (w *World) terminatorFlagOf(v ssa.Value) (*ssa.Call, bool, bool) {
 		return nil, false, false
 	}
 	sc := c.Call.StaticCallee()
-	if sc == nil || !w.inPkg(sc) || !w.terminatorFlag(sc, ex.Index) {
+	if sc == nil || !w.inPkg(sc) {
 		return nil, false, false
 	}
-	return c, neg, true
+	if w.terminatorFlag(sc, ex.Index) {
+		return c, neg, true
+	}
+	// the inverted report `key, more, err := d.nextKey()`: `!more` is the terminator
+	// report wherever the error of the same call is known to be nil (loopsx_more.go)
+	if w.continuationFlag(sc, ex.Index) && w.errNilWhereTested(c, v) {
+		return c, !neg, true
+	}
+	return nil, false, false
 }
 
 // terminatorFlag: result idx of fn is a boolean that is true only on returns
@@ -101,19 +110,19 @@ func (w *World) terminatorFlag(fn *ssa.Function, idx int) bool {
 		memo = map[termFlagKey]int{}
 		termFlagMemo[w] = memo
 	}
-	k := termFlagKey{fn, idx}
+	k := termFlagKey{fn, idx, false}
 	if v, ok := memo[k]; ok {
 		return v == 2
 	}
 	memo[k] = 1
-	if w.terminatorFlagCompute(fn, idx) {
+	if w.terminatorFlagCompute(fn, idx, false) {
 		memo[k] = 2
 		return true
 	}
 	return false
 }
 
-func (w *World) terminatorFlagCompute(fn *ssa.Function, idx int) bool {
+func (w *World) terminatorFlagCompute(fn *ssa.Function, idx int, cont bool) bool {
 	if fn.Blocks == nil || idx >= fn.Signature.Results().Len() || typeStr(fn.Signature.Results().At(idx).Type()) != "bool" {
 		return false
 	}
@@ -217,6 +226,16 @@ func (w *World) terminatorFlagCompute(fn *ssa.Function, idx int) bool {
 	for _, b := range fn.Blocks {
 		ret, isRet := b.Instrs[len(b.Instrs)-1].(*ssa.Return)
 		if !isRet {
+			continue
+		}
+		if cont {
+			// the inverted report: false on a return that can succeed only inside the region
+			// entered through the terminator report (loopsx_more.go)
+			good, report := w.continuationReturn(ret, idx, inRegion(b))
+			if !good {
+				return false
+			}
+			sawTrue = sawTrue || report
 			continue
 		}
 		if !ok(ret.Results[idx], b, 0) {
